@@ -66,7 +66,7 @@ def run():
             if not os.environ.get('C01_ALLCFG'):
                 cfgs = keep
         else:
-            scens = small + list(nc.random_scenarios(rng, 1500, nmax=40))
+            scens = small + list(nc.random_scenarios(rng, 900, nmax=40))
     if not chk.args.replay:
         # every other scenario leaves the switch of the (source, destination)
         # pair to get_nearest_particles itself (no set_context by the caller)
